@@ -25,9 +25,11 @@ MALFORMED = ["%", "%%", "%4", "%G1", "%1G", "%%41", "%zz", "%A", "%a%", "% 41", 
              "%\u0664\u0661", "%4\uff11", "%\uff14\uff11", "%\uff21\uff22", "%\u0967\u0968", "%\U0001d7dc\U0001d7d9", "%\xb2\xb3", "%4\u0661", "%\u0664" + "1", "%\uff41\uff46"]
 LOWBYTE_HEX = ["%\u0441\u0442", "%\u0130\u0131", "%4\u0141", "%\u0141" + "1", "%\u0434\u0435", "%\u0a41\u0a42", "%\u4e41\u4e42", "%\U00010341\U00010342", "%\u0161\u0166"]
 MALFORMED += LOWBYTE_HEX
+# text that looks like "<scheme>:" but starts with / contains a non-ASCII letter, and non-ASCII white space in front of a URL
+SCHEMEISH = ["\xe9:x", "\xe4dmin:secret@", "\u0444ile:///etc", "\uff41:b", "\u0131x:", "h\xe9ttp://h/", "\xa0http://h/p", "\u3000//h/p", "\u2003http://h", "\x85a:b", "\u2028x://y"]
 UNICODE_DIGITS = [chr(c) for c in (0x660, 0x661, 0x664, 0x6F4, 0x966, 0x967, 0xFF10, 0xFF11, 0xFF14, 0xFF21, 0xFF26, 0xFF41, 0xFF46, 0x1D7CE, 0x1D7DC, 0xB2, 0xB3, 0xB9, 0x2074, 0x2460, 0x0E54, 0x1810)]
 MALFORMED_SURR = ["%\ud80041", "%4\udc00", "%9\udffff", "\ud800%41"]
-DOTS = [".", "..", "...", ".a", "a.", "%2E", "%2e%2E", "/./", "/../", "/.", "/..", "./", "../"]
+DOTS = [".", "..", "...", ".a", "a.", "%2E", "%2e%2E", "/./", "/../", "/.", "/..", "./", "../", "/...bak", "/..tmp", "..gz", "/a/...x"]
 
 
 def esc_any():
@@ -102,7 +104,7 @@ def ascii_label():
 
 
 IDN_LABELS = ["пример", "испытание", "münchen", "bücher", "例え", "español", "ελληνικά", "straße", "faß", "☃", "İstanbul", "ǅ", "xn--n3h", "xn--e1afmkfd",
-              "Bücher", "ПРИМЕР", "تجربة", "परीक्षा", "áb", "ȡog", "√", "ᴬb", "日本語"]
+              "Bücher", "ПРИМЕР", "XN--N3H", "Xn--e1afmkfd", "xN--BCHER-KVA", "WWW.XN--BCHER-KVA", "تجربة", "परीक्षा", "áb", "ȡog", "√", "ᴬb", "日本語"]
 SUBDELIM_LABELS = ["a!b", "a$b", "a&b", "a'b", "(a)", "a*b", "a+b", "a,b", "a;b", "a=b", "a~b", "a_b", "%41b", "%c3%a9", "%7e"]
 
 
